@@ -883,47 +883,77 @@ fn validate_positive_usize(s: &str) -> Result<usize, String> {
     }
 }
 
+/// -n, -L and -I/-i as they are left after reading them in the order given:
+/// each one replaces the others, except that -n 1 leaves an earlier -I in force
+/// (they do not conflict).  This is how GNU xargs reads its command line.
+fn batch_mode(matches: &clap::ArgMatches) -> (Option<usize>, Option<usize>, Option<String>) {
+    enum Given {
+        Args(usize),
+        Lines(usize),
+        Replace(String),
+    }
+
+    let mut given: Vec<(usize, Given)> = Vec::new();
+    for (option, wrap) in [
+        (options::MAX_ARGS, Given::Args as fn(usize) -> Given),
+        (options::MAX_LINES, Given::Lines),
+    ] {
+        if let (Some(indices), Some(values)) =
+            (matches.indices_of(option), matches.get_many::<usize>(option))
+        {
+            given.extend(indices.zip(values.map(|v| wrap(*v))));
+        }
+    }
+    for option in [options::REPLACE, options::REPLACE_I] {
+        if let (Some(indices), Some(values)) =
+            (matches.indices_of(option), matches.get_many::<String>(option))
+        {
+            given.extend(indices.zip(values.map(|v| Given::Replace(v.clone()))));
+        }
+    }
+    given.sort_by_key(|(index, _)| *index);
+
+    let (mut max_args, mut max_lines, mut replace) = (None, None, None);
+    let mut conflict = false;
+    for (_, option) in given {
+        match option {
+            Given::Replace(r) => {
+                // `max_args=1` and `replace` do not actually conflict, so no warning.
+                conflict |= max_lines.is_some() || max_args.is_some_and(|n| n != 1);
+                (max_args, max_lines, replace) = (None, None, Some(r));
+            }
+            Given::Lines(n) => {
+                conflict |= max_args.is_some() || replace.is_some();
+                (max_args, max_lines, replace) = (None, Some(n), None);
+            }
+            Given::Args(1) if replace.is_some() => {}
+            Given::Args(n) => {
+                conflict |= max_lines.is_some() || replace.is_some();
+                (max_args, max_lines, replace) = (Some(n), None, None);
+            }
+        }
+    }
+    if conflict {
+        eprintln!(
+            "WARNING: -L, -n and -I/-i are mutually exclusive, but more than one were given; \
+            only the last option will be used"
+        );
+    }
+    (max_args, max_lines, replace)
+}
+
 fn normalize_options<'a>(
     options: &'a Options,
     matches: &'a clap::ArgMatches,
 ) -> (Option<usize>, Option<usize>, &'a Option<String>, Option<u8>) {
-    let (max_args, max_lines, replace) =
-        match (options.max_args, options.max_lines, &options.replace) {
-            // These 3 options are mutually exclusive.
-            // But `max_args=1` and `replace` do not actually conflict, so no warning.
-            (None | Some(1), None, Some(_)) => {
-                // If `replace`, all matches in initial args should be replaced with extra args read from stdin.
-                // It is possible to have multiple matches and multiple extra args, and the Cartesian product is desired.
-                // To be specific, we process extra args one by one, and replace all matches with the same extra arg in each time.
-                (Some(1), None, &options.replace)
-            }
-            (Some(_), None, None) | (None, Some(_), None) | (None, None, None) => {
-                (options.max_args, options.max_lines, &None)
-            }
-            _ => {
-                eprintln!(
-                "WARNING: -L, -n and -I/-i are mutually exclusive, but more than one were given; \
-                only the last option will be used"
-            );
-                let lines_index = matches
-                    .indices_of(options::MAX_LINES)
-                    .and_then(|mut v| v.next_back());
-                let args_index = matches
-                    .indices_of(options::MAX_ARGS)
-                    .and_then(|mut v| v.next_back());
-                let replace_index = [options::REPLACE, options::REPLACE_I]
-                    .iter()
-                    .flat_map(|o| matches.indices_of(o).and_then(|mut v| v.next_back()))
-                    .max();
-                if lines_index > args_index && lines_index > replace_index {
-                    (None, options.max_lines, &None)
-                } else if args_index > lines_index && args_index > replace_index {
-                    (options.max_args, None, &None)
-                } else {
-                    (Some(1), None, &options.replace)
-                }
-            }
-        };
+    // (-n, -L and -I/-i have been reconciled by batch_mode: at most one is left)
+    let (max_args, max_lines, replace) = match &options.replace {
+        // If `replace`, all matches in initial args should be replaced with extra args read from stdin.
+        // It is possible to have multiple matches and multiple extra args, and the Cartesian product is desired.
+        // To be specific, we process extra args one by one, and replace all matches with the same extra arg in each time.
+        Some(_) => (Some(1), None, &options.replace),
+        None => (options.max_args, options.max_lines, &None),
+    };
 
     let delimiter = match (options.delimiter, options.null) {
         (Some(delimiter), true) => {
@@ -989,6 +1019,7 @@ fn do_xargs(args: &[&str]) -> Result<CommandResult, XargsError> {
                     "Set the max number of arguments read from stdin to be passed \
                     to each command invocation (mutually exclusive with -L and -I/-i)",
                 )
+                .action(ArgAction::Append)
                 .value_parser(validate_positive_usize),
         )
         .arg(
@@ -999,6 +1030,7 @@ fn do_xargs(args: &[&str]) -> Result<CommandResult, XargsError> {
                     "Set the max number of lines from stdin to be passed to each \
                     command invocation (mutually exclusive with -n and -I/-i)",
                 )
+                .action(ArgAction::Append)
                 .value_parser(validate_positive_usize),
         )
         .arg(
@@ -1046,6 +1078,7 @@ fn do_xargs(args: &[&str]) -> Result<CommandResult, XargsError> {
                 .num_args(0..=1)
                 .require_equals(true)
                 .default_missing_value("{}")
+                .action(ArgAction::Append)
                 .value_parser(clap::value_parser!(String))
                 .value_name("R")
                 .help("If R is specified, the same as -I R; otherwise, the same as -I {}"),
@@ -1060,8 +1093,8 @@ fn do_xargs(args: &[&str]) -> Result<CommandResult, XargsError> {
                     also, the input is split at newlines only
                     (mutually exclusive with -L and -n)",
                 )
-                .overrides_with(options::REPLACE)
                 .allow_hyphen_values(true)
+                .action(ArgAction::Append)
                 .value_parser(clap::value_parser!(String)),
         )
         .try_get_matches_from(args);
@@ -1079,26 +1112,19 @@ fn do_xargs(args: &[&str]) -> Result<CommandResult, XargsError> {
         },
     };
 
+    let (max_args, max_lines, replace) = batch_mode(&matches);
     let options = Options {
         arg_file: matches
             .get_one::<String>(options::ARG_FILE)
             .map(std::borrow::ToOwned::to_owned),
         delimiter: matches.get_one::<u8>(options::DELIMITER).copied(),
         exit_if_pass_char_limit: matches.get_flag(options::EXIT),
-        max_args: matches.get_one::<usize>(options::MAX_ARGS).copied(),
+        max_args,
         max_chars: matches.get_one::<usize>(options::MAX_CHARS).copied(),
-        max_lines: matches.get_one::<usize>(options::MAX_LINES).copied(),
+        max_lines,
         no_run_if_empty: matches.get_flag(options::NO_RUN_IF_EMPTY),
         null: matches.get_flag(options::NULL),
-        replace: [options::REPLACE_I, options::REPLACE]
-            .iter()
-            .find_map(|&option| {
-                matches.contains_id(option).then(|| {
-                    matches
-                        .get_one::<String>(option)
-                        .map_or_else(|| "{}".to_string(), std::borrow::ToOwned::to_owned)
-                })
-            }),
+        replace,
         verbose: matches.get_flag(options::VERBOSE),
     };
 
